@@ -1,6 +1,7 @@
 package main
 
 import (
+	"sort"
 	"fmt"
 	"go/types"
 	"regexp"
@@ -342,6 +343,25 @@ func c14R2(c *Ctx) {
 						noFiles = true
 					}
 				}
+			}
+			// and whenever no file was named and standard input is not a terminal: no further condition
+			// (what kind of file stdin is, an environment variable, …) decides whether it is read
+			{
+				var extra []string
+				for f := range FactsOf(run).At(st.Block()) {
+					var g string
+					if rl, ok := relsOf(f); ok {
+						g = p.RenderShort(rl.x) + " " + rl.op.String() + " " + p.RenderShort(rl.y)
+					} else {
+						g = boolFactText(p, f)
+					}
+					if stdinGuardAllowed(g) {
+						continue
+					}
+					extra = append(extra, g)
+				}
+				sort.Strings(extra)
+				c.check(len(extra) == 0, "R2", "stdin-read-whenever-no-files", p.InstrPos(st), "nothing but `no file arguments` and `stdin is not a terminal` decides whether standard input is read", "standard input is read only under the additional condition {"+strings.Join(dedup(extra), " && ")+"}: input redirected from a file, a socket or whatever the condition excludes is silently not processed, although the same bytes in a named file are")
 			}
 			c.check(noFiles, "R2", "stdin-only-without-files", p.InstrPos(st), "standard input is read only when no input file was named", "the standard-input entry is built on a path where `no file arguments` is not established: with stdin redirected (cron, a pipe, /dev/null) the named files are never opened")
 		})
@@ -779,4 +799,23 @@ func silentReturn(p *Program, fn *ssa.Function, depth int) string {
 		work = append(work, b.Succs...)
 	}
 	return ""
+}
+
+// stdinGuardAllowed: the conditions under which the standard-input entry may be built — no file
+// arguments, stdin not a terminal, earlier steps succeeded, the developer flags are off, and the
+// bookkeeping of the loop that builds the input list.
+func stdinGuardAllowed(g string) bool {
+	switch {
+	case strings.Contains(g, "IsTerminal("):
+		return true
+	case strings.Contains(g, "flag."): // flag values and the argument list
+		return true
+	case strings.HasPrefix(g, "i@") || strings.HasPrefix(g, "!i@"): // loop bookkeeping
+		return true
+	case g == "phi(false | true)" || g == "phi(true | false)" || g == "!phi(false | true)" || g == "!phi(true | false)": // the remembered decision itself
+		return true
+	case strings.HasSuffix(g, "#1 == nil") || strings.HasSuffix(g, "#1 != nil"): // an earlier step's error
+		return true
+	}
+	return false
 }
